@@ -2,7 +2,7 @@
    generic over the ops record (R for the theorems, OCaml floats for the correspondence run).
 
    Every function mirrors the code AS IT IS (line numbers of /repo/spatialmath/base):
-     transformsNd.py:292  isR(R, tol=100)      norm(R@R.T - eye) < tol*_eps and det(R@R.T) > 0      (sic: det of R R', not of R)
+     transformsNd.py:292  isR(R, tol=100)      norm(R@R.T - eye) < tol*_eps and det(R) > 0           (since fix 8457767; it was det(R@R.T))
      transformsNd.py:319  isskew(S, tol=10)    norm(S + S.T) < tol*_eps
      transformsNd.py:346  isskewa(S, tol=10)   norm(S[:-1,:-1] + S[:-1,:-1].T) < tol*_eps and all(S[-1,:] == 0)
      transformsNd.py:375  iseye(S, tol=10)     norm(S - eye) < tol*_eps
@@ -15,7 +15,7 @@
      vectors.py:245       iszero(v, tol=10)    abs(v) < tol*_eps
      vectors.py:266       isunittwist(v, tol)  isunitvec(v[3:6]) or (norm(v[3:6]) < tol*_eps and isunitvec(v[0:3]))
      vectors.py:304       isunittwist2(v, tol) isunitvec(v[2]) or (abs(v[2]) < tol*_eps and isunitvec(v[0:2]))
-     quaternions.py:112   isunit(q, tol=100)   iszerovec(q, tol)                                      (sic)
+     quaternions.py:112   isunit(q, tol=100)   isunitvec(q, tol)                                      (since fix f745aab; it was iszerovec)
    and the class-level validity tests
      twist.py:359   Twist3.isvalid (4x4 form)  iszerovec(diag) and iszerovec(v[3,:]) and (not check or isskew(v[:3,:3]))
      twist.py:1128  Twist2.isvalid (3x3 form)  iszerovec(diag) and iszerovec(v[2,:]) and (not check or isskew(v[:2,:2]))
@@ -56,9 +56,9 @@ Definition unit_defect4 (v : V4 T) : T := abs_ O (norm4 v - 1).
 
 (* ---- isR ---- *)
 Definition isR2 (tol : T) (R : M22 T) : bool :=
-  ltb O (orth_defect2 R) (thr tol) && ltb O 0 (det22 O (mmul22 O R (mtr22 R))).
+  ltb O (orth_defect2 R) (thr tol) && ltb O 0 (det22 O R).
 Definition isR3 (tol : T) (R : M33 T) : bool :=
-  ltb O (orth_defect3 R) (thr tol) && ltb O 0 (det33 O (mmul33 O R (mtr33 R))).
+  ltb O (orth_defect3 R) (thr tol) && ltb O 0 (det33 O R).
 
 (* ---- np.all(row == [..]) ---- *)
 Definition row_eq3 (r : V3 T) (a b c : T) : bool :=
@@ -90,8 +90,8 @@ Definition iszerovec3 (tol : T) (v : V3 T) : bool := ltb O (norm3 O v) (thr tol)
 Definition iszerovec4 (tol : T) (v : V4 T) : bool := ltb O (norm4 v) (thr tol).
 Definition iszero (tol : T) (x : T) : bool := ltb O (abs_ O x) (thr tol).
 
-(* quaternions.isunit: the body is iszerovec(q, tol=tol) *)
-Definition isunit_q (tol : T) (q : V4 T) : bool := iszerovec4 tol q.
+(* quaternions.isunit: the body is isunitvec(q, tol=tol) *)
+Definition isunit_q (tol : T) (q : V4 T) : bool := isunitvec4 tol q.
 
 Definition isunittwist (tol : T) (s : V6 T) : bool :=
   let '(v0,v1,v2,w0,w1,w2) := s in
